@@ -26,7 +26,15 @@ func (fr *frame) exec(ins ssa.Instruction) {
 		fr.env[ins] = fr.unop(ins)
 	case *ssa.Call:
 		if callee := ins.Call.StaticCallee(); callee != nil && ins.Call.Method == nil && onlyLogged(ins, callee) {
-			// a string that flows only into logging calls is not computed (avoids forking on its digits)
+			// a string that flows only into logging calls is not computed (avoids forking on its digits); Go does
+			// evaluate it, so what it allocates still counts for the allocation ghost: hex.EncodeToString makes a
+			// 2n-octet buffer and a 2n-octet string (the constant-size results of Itoa/FormatInt are ignored, the
+			// arguments of Sprintf/Sprint are not sized - stated in DESIGN as outside the allocation claim)
+			if callee.String() == "encoding/hex.EncodeToString" && len(ins.Call.Args) == 1 {
+				if sl, ok := fr.get(ins.Call.Args[0]).(Slice); ok {
+					ex.accountAllocN(types.Typ[types.Uint8], ex.C.Mul(sl.Len, ex.k64(4)))
+				}
+			}
 			fr.env[ins] = ex.strConst("?")
 			return
 		}
